@@ -72,7 +72,7 @@ Proof.
       destruct (ttok (itask it)); cbn; lia.
     + destruct i_bc. split; [|auto].
       destruct (ttok (itask it)); destruct Hpc; subst p; cbn in CB; lia.
-    + unfold nsec, ntok_items, ntok_todo in *. flds. unfold is_tok_item in CT at 1.
+    + unfold nsec, ntok_items, ntok_todo in *. flds. change (is_tok_item it) with (ttok (itask it)) in CT.
       destruct (ttok (itask it)); destruct Hpc; subst p; cbn in CS, CT; lia.
     + intros C P. specialize (i_wake C).
       destruct (ttok (itask it)); destruct Hpc; subst p; cbn in CW, CK; lia.
@@ -175,15 +175,15 @@ Proof.
       * assert (SA : cnt (insec (S (bgen s))) (upd i wk' (ws s)) = 0).
         { apply cnt_all_false. intros j y Ey. unfold insec.
           destruct (NW _ _ Ey) as [(_ & ->)|(_ & P & Q)].
-          - unfold wk', after_bar. subst k. reflexivity.
-          - rewrite P. subst k. cbn. apply Nat.eqb_neq. lia. }
-        unfold gr'. destruct (Nat.eqb_spec k 3); [|lia]. rewrite SA. lia.
+          - unfold wk', after_bar. destruct (Nat.eqb_spec k 3); [reflexivity|lia].
+          - rewrite P. destruct (Nat.eqb_spec k 3); [|lia]. cbn. apply Nat.eqb_neq. lia. }
+        unfold gr', g'. destruct (Nat.eqb_spec k 3); [|lia]. rewrite SA. lia.
       * assert (SA : cnt (insec (S (bgen s))) (upd i wk' (ws s)) = length (ws s)).
         { rewrite <- (upd_length _ i wk' (ws s)). apply cnt_all_true. intros j y Ey. unfold insec.
           destruct (NW _ _ Ey) as [(_ & ->)|(_ & P & Q)].
           - unfold wk', after_bar. destruct (Nat.eqb_spec k 3); [lia|reflexivity].
           - rewrite P. destruct (Nat.eqb_spec k 3); [lia|reflexivity]. }
-        unfold gr'. destruct (Nat.eqb_spec k 3); [lia|]. rewrite SA. lia.
+        unfold gr', g'. destruct (Nat.eqb_spec k 3); [lia|]. rewrite SA. lia.
     + intros C P. exfalso.
       assert (Z : cnt is_waitE (upd i wk' (ws s)) = 0).
       { apply cnt_all_false. intros j y Ey. unfold is_waitE.
@@ -214,12 +214,218 @@ Proof.
   assert (GB : 4 * ground s <= bgen s < 4 * ground s + 4) by (destruct HI; auto).
   destruct Hw as [(A & _)|(A & Hw)]; [congruence|].
   assert (Gne : (g =? bgen s) = false) by (apply Nat.eqb_neq; auto).
-  apply inv_frame_quiet with (wk := mkW (WBarW k g) r); auto; wk_simpl;
-    try (destruct (Nat.eqb_spec k 3); reflexivity); try discriminate; try (destruct (k =? 3); discriminate).
-  - unfold stg in *. destruct (Nat.eqb_spec k 3); cbn [pc wrounds]; lia.
-  - rewrite Gne. destruct (k =? 3); reflexivity.
-  - rewrite Gne. destruct (Nat.eqb_spec k 3) as [->|K]; cbn; auto.
-    destruct (Nat.eqb_spec k 3); [lia|]. reflexivity.
+  unfold after_bar. unfold stg in *.
+  destruct (Nat.eqb_spec k 3) as [K3|K3];
+    apply inv_frame_quiet with (wk := mkW (WBarW k g) r); auto; wk_simpl; try discriminate; try reflexivity;
+    unfold stg; try rewrite Gne; try lia.
+Qed.
+
+(* -------------------------------------------------------------------------------------- step_work *)
+Lemma same_core_refl_ws : forall s c rb rs,
+  same_core s (mkState (items s) (cur s) (closed s) (nseq s) (pst s) (todo s) (ws s) (bcount s) (bgen s) c
+                       (ground s) (pushed s) (segd s) rb rs).
+Proof. intros. unfold same_core. cbn. repeat split; reflexivity. Qed.
+
+Lemma inv_step_work : forall s i sq nb s', Inv s -> step_work pa s i sq nb = Some s' -> Inv s'.
+Proof.
+  intros s i sq nb s' HI H. unfold step_work in H.
+  destruct (nth_error (ws s) i) as [wk|] eqn:E; [|discriminate].
+  pose proof (wf_at _ _ _ HI E) as Hw.
+  destruct (pc wk) as [| | |q|k|k g|k|] eqn:Hpc.
+  - eapply inv_pull; eauto.
+  - (* WWaitE, closed *)
+    destruct (closed s) eqn:C; [|discriminate]. inversion H; subst s'; clear H.
+    destruct wk as [p r]. cbn [pc] in Hpc. subst p.
+    apply inv_frame with (wk := mkW WWaitE r); auto; wk_simpl; auto; try discriminate; try congruence.
+  - eapply inv_pull; eauto.
+  - (* WSeg *)
+    inversion H; subst s'; clear H.
+    destruct wk as [p r]. cbn [pc] in Hpc. subst p.
+    set (wk' := set_pc (mkW (WSeg q) r) WPull).
+    pose proof (cnt_upd _ is_waitE i wk' _ _ E) as CW.
+    pose proof (cnt_upd _ is_wokenE i wk' _ _ E) as CK.
+    pose proof (cnt_upd _ is_exited i wk' _ _ E) as CX.
+    pose proof (cnt_upd _ (barcur (bgen s)) i wk' _ _ E) as CB.
+    pose proof (cnt_upd _ (insec (bgen s)) i wk' _ _ E) as CS.
+    assert (NX : is_exited (mkW (WSeg q) r) = false) by reflexivity.
+    pose proof (not_done_if_active _ _ _ HI E NX) as ND.
+    unfold wk' in *. revert CW CK CX CB CS. wk_simpl. intros CW CK CX CB CS.
+    destruct HI. constructor; flds; auto.
+    + rewrite upd_length; auto.
+    + apply Forall_upd; auto.
+    + destruct i_bc. split; lia.
+    + unfold nsec, ntok_items, ntok_todo in *. flds. lia.
+    + intros C P. specialize (i_wake C). lia.
+    + intros P. apply i_ex. lia.
+    + intros D. contradiction.
+    + rewrite i_ctg.
+      rewrite (inflight_upd_leave _ i (mkW WPull r) _ q E); cbn [pc]; auto; try discriminate.
+      cbn [app]. apply Permutation_sym, Permutation_middle.
+  - eapply inv_arrive; eauto.
+  - destruct (Nat.eqb_spec g (bgen s)); [discriminate|]. inversion H; subst s'; clear H.
+    eapply inv_leave; eauto.
+  - (* phases *)
+    destruct wk as [p r]. cbn [pc] in Hpc. subst p.
+    unfold wfw in Hw. cbn [pc wrounds] in Hw.
+    assert (F : forall k', S k = k' -> Inv (set_ws s (upd i (set_pc (mkW (WPhase k) r) (WBar k')) (ws s)))).
+    { intros k' K. apply inv_frame_quiet with (wk := mkW (WPhase k) r); auto; wk_simpl; try discriminate; auto.
+      lia. }
+    destruct k as [|[|[|k]]]; [| | |discriminate].
+    + destruct (i =? 0); inversion H; subst s'; clear H.
+      * eapply inv_core; [apply (F 1 eq_refl)|]. unfold same_core. cbn. repeat split; reflexivity.
+      * apply (F 1 eq_refl).
+    + destruct (claimable s) eqn:CL; inversion H; subst s'; clear H.
+      * apply (F 2 eq_refl).
+      * eapply inv_core; [apply HI|]. apply same_core_refl_ws.
+    + destruct (i =? 0); inversion H; subst s'; clear H.
+      * eapply inv_core; [apply (F 3 eq_refl)|]. unfold same_core. cbn. repeat split; reflexivity.
+      * apply (F 3 eq_refl).
+  - discriminate.
+Qed.
+
+(* --------------------------------------------------------------------------------------- producer *)
+Definition ws_ok (s : state) (l : list worker) : Prop :=
+  length l = length (ws s) /\
+  Forall (wfw (bgen s) (stg s) (ground s)) l /\
+  cnt (barcur (bgen s)) l = cnt (barcur (bgen s)) (ws s) /\
+  cnt (insec (bgen s)) l = cnt (insec (bgen s)) (ws s) /\
+  cnt is_exited l = cnt is_exited (ws s) /\
+  inflight l = inflight (ws s) /\
+  (0 < cnt is_waitE l -> 0 < cnt is_waitE (ws s) /\ cnt is_wokenE (ws s) + 1 <= cnt is_wokenE l).
+
+Lemma notify_ok : forall s ntf l, Inv s -> notify_empty (ws s) ntf = Some l -> ws_ok s l.
+Proof.
+  intros s ntf l HI H. unfold notify_empty in H. destruct ntf as [j|].
+  - destruct (nth_error (ws s) j) as [w|] eqn:E; [|discriminate].
+    destruct (is_waitE w) eqn:W; [|discriminate]. inversion H; subst l; clear H.
+    pose proof (wf_at _ _ _ HI E) as Hw.
+    destruct w as [p r]. unfold is_waitE in W. cbn [pc] in W. destruct p; try discriminate.
+    set (wk' := set_pc (mkW WWaitE r) WWokenE).
+    pose proof (cnt_upd _ is_waitE j wk' _ _ E) as CW.
+    pose proof (cnt_upd _ is_wokenE j wk' _ _ E) as CK.
+    pose proof (cnt_upd _ is_exited j wk' _ _ E) as CX.
+    pose proof (cnt_upd _ (barcur (bgen s)) j wk' _ _ E) as CB.
+    pose proof (cnt_upd _ (insec (bgen s)) j wk' _ _ E) as CS.
+    unfold wk' in *. revert CW CK CX CB CS. wk_simpl. intros CW CK CX CB CS.
+    unfold ws_ok. repeat split; try lia.
+    + apply upd_length.
+    + destruct HI. apply Forall_upd; auto.
+    + apply (inflight_upd_noseg _ _ _ _ E); cbn; discriminate.
+  - destruct (existsb is_waitE (ws s)) eqn:X; [discriminate|]. inversion H; subst l; clear H.
+    apply existsb_cnt in X. unfold ws_ok. repeat split; auto; try lia.
+    destruct HI; auto.
+Qed.
+
+Lemma inv_admit : forall s t rest l,
+  Inv s -> closed s = false -> (pst s = PRun \/ pst s = PWokenF) -> todo s = OPush t :: rest -> ws_ok s l ->
+  Inv (mkState (mkItem (nseq s) t :: items s) (cur s + tsize t)%N (closed s) (nseq s + 1)%N PRun rest l
+               (bcount s) (bgen s) (claimable s) (ground s)
+               (if ttok t then pushed s else nseq s :: pushed s) (segd s) (rawbuf s) (rounds s)).
+Proof.
+  intros s t rest l HI C P T (L & F & CB & CS & CX & IF & WK).
+  destruct HI. constructor; flds; auto.
+  - lia.
+  - destruct i_bc. split; lia.
+  - unfold nsec, ntok_items, ntok_todo in *. flds. rewrite T in i_tok. cbn [cnt is_tok_op is_tok_item itask] in *.
+    rewrite CS. lia.
+  - intros _ U. destruct (WK U) as (U0 & K1). specialize (i_wake C U0). cbn [length]. lia.
+  - discriminate.
+  - cbn [sumsz itask]. lia.
+  - rewrite C. split; [split; [discriminate | intros [H|H]; discriminate] | discriminate].
+  - intros [H|H]; discriminate.
+  - intros X. rewrite CX in X. destruct (i_ex X). congruence.
+  - discriminate.
+  - destruct i_seq as (FS & ND). split.
+    + constructor; cbn [iseq]; [lia|]. eapply Forall_impl; [|apply FS]. cbn. intros; lia.
+    + cbn [map iseq]. constructor; auto. intros I. apply in_map_iff in I. destruct I as (x & Ex & Ix).
+      rewrite Forall_forall in FS. specialize (FS x Ix). lia.
+  - rewrite IF, qctg_cons. unfold is_tok_item. cbn [itask iseq].
+    destruct (ttok t); auto.
+    rewrite i_ctg. rewrite !app_assoc. apply Permutation_middle.
+  - rewrite T in i_nctg. unfold nctg_todo in *. cbn [cnt] in i_nctg.
+    destruct (ttok t); cbn [negb b2n length] in *; lia.
+Qed.
+
+Lemma inv_push : forall s t rest ntf s',
+  Inv s -> (pst s = PRun \/ pst s = PWokenF) -> todo s = OPush t :: rest ->
+  step_push pa s t rest ntf = Some s' -> Inv s'.
+Proof.
+  intros s t rest ntf s' HI P T H. unfold step_push in H.
+  destruct (closed s) eqn:C; [discriminate|].
+  destruct (push_blocked pa s (tsize t)) eqn:B.
+  - inversion H; subst s'; clear H.
+    unfold push_blocked in B. rewrite Hrule, C in B. cbn in B.
+    destruct HI. constructor; flds; auto.
+    + intros _. lia.
+    + rewrite C. split; [split; [discriminate | intros [H|H]; discriminate] | discriminate].
+    + intros _. eauto.
+    + discriminate.
+  - unfold admit in H. destruct (notify_empty (ws s) ntf) as [l|] eqn:NE; [|discriminate].
+    inversion H; subst s'; clear H.
+    apply inv_admit; auto. eapply notify_ok; eauto.
+Qed.
+
+Lemma inv_step_prod : forall s ntf s', Inv s -> step_prod pa s ntf = Some s' -> Inv s'.
+Proof.
+  intros s ntf s' HI H. unfold step_prod in H.
+  destruct (pst s) eqn:P.
+  - destruct (todo s) as [|[t|] rest] eqn:T.
+    + (* close *)
+      destruct (closed s) eqn:C; [discriminate|]. inversion H; subst s'; clear H.
+      destruct HI. constructor; flds; auto.
+      * discriminate.
+      * discriminate.
+      * split; [split; auto | auto].
+      * intros [H|H]; discriminate.
+      * intros X. destruct (i_ex X). congruence.
+      * discriminate.
+    + eapply inv_push; eauto.
+    + destruct (items s) eqn:EI; inversion H; subst s'; clear H; [|auto].
+      destruct HI. constructor; flds; auto.
+      * unfold nsec, ntok_items, ntok_todo in *. flds. rewrite T in i_tok. cbn [cnt is_tok_op b2n] in i_tok. lia.
+      * destruct i_closed as (A & B). split; auto. intros C. specialize (B C). congruence.
+      * intros [H|H]; congruence.
+      * rewrite T in i_nctg. unfold nctg_todo in *. cbn [cnt b2n] in i_nctg. lia.
+  - discriminate.
+  - destruct (todo s) as [|[t|] rest] eqn:T; try discriminate.
+    eapply inv_push; eauto.
+  - destruct (forallb is_exited (ws s)) eqn:FA; [|discriminate]. inversion H; subst s'; clear H.
+    apply forallb_cnt in FA.
+    destruct HI. constructor; flds; auto.
+    + discriminate.
+    + destruct i_closed as (A & B). split; auto. split; auto. intros _. apply A. auto.
+    + intros [H|H]; discriminate.
+    + intros _. lia.
+  - discriminate.
+Qed.
+
+Lemma inv_step : forall s l s', Inv s -> step pa s l = Some s' -> Inv s'.
+Proof.
+  intros s l s' HI H. destruct l as [ntf|w sq nb|w|]; cbn [step] in H.
+  - eapply inv_step_prod; eauto.
+  - eapply inv_step_work; eauto.
+  - destruct (nth_error (ws s) w) as [wk|] eqn:E; [|discriminate].
+    destruct (is_waitE wk) eqn:W; [|discriminate]. inversion H; subst s'; clear H.
+    pose proof (wf_at _ _ _ HI E) as Hw.
+    destruct wk as [p r]. unfold is_waitE in W. cbn [pc] in W. destruct p; try discriminate.
+    apply inv_frame with (wk := mkW WWaitE r); auto; wk_simpl; auto; try discriminate.
+    intros C U.
+    pose proof (cnt_upd _ is_waitE w (set_pc (mkW WWaitE r) WWokenE) _ _ E) as CW.
+    pose proof (cnt_upd _ is_wokenE w (set_pc (mkW WWaitE r) WWokenE) _ _ E) as CK.
+    revert CW CK U. wk_simpl. intros CW CK U. destruct HI. specialize (i_wake C). lia.
+  - destruct (pst s) eqn:P; try discriminate. inversion H; subst s'; clear H.
+    destruct HI. constructor; flds; auto.
+    + discriminate.
+    + destruct i_closed as (A & B). split; auto. rewrite A. split; intros [H|H]; discriminate.
+    + intros _. apply i_pwait. auto.
+    + discriminate.
+Qed.
+
+Theorem inv_reachable_all : 1 <= nthr pa -> forall s, reachable pa script s -> Inv s.
+Proof.
+  intros Hn s R. induction R.
+  - apply inv_init. auto.
+  - eapply inv_step; eauto.
 Qed.
 
 End Steps.
